@@ -505,6 +505,25 @@ fn run_reader(plan: &Value, rec: &mut Rec) {
                         rec.violation("result-differs", &site, format!("read failed though the fault never fired: {:?}", o.end), vplan);
                     } else if !refo.data.starts_with(&o.data) {
                         rec.violation("wrong-data-before-error", &site, format!("{} bytes released before the error are not a prefix of the payload", o.data.len()), vplan);
+                    } else if f.kind != "interrupted" && o.stage == "read" {
+                        // the same run with a consumer that reads on after the error: more errors, or a real
+                        // resumption with the complete payload, but never a clean end with other content
+                        seams::set_resume_after_error(true);
+                        let again = do_read(&artifact, armor, &opener, &verifiers, sched.clone(), cap, &consumer, vec![f.clone()], max);
+                        seams::set_resume_after_error(false);
+                        rec.count("probe:consumer-reads-on-after-the-error");
+                        match &again.result {
+                            Err(p) if p.msg.contains(LIVELOCK_MARK) => {}
+                            Err(p) => rec.violation("panic", &norm_loc(&p.loc), format!("reader panicked when read again after injected {} on source call {:?} (consumer {}): {}", f.kind, f.at_call, consumer.label(), p.msg), vplan),
+                            Ok(o2) if o2.end.is_ok() && o2.data != refo.data => rec.violation(
+                                "clean-shorter-after-error",
+                                &site,
+                                format!("source raised {} at call {:?}, which surfaced as an error; the consumer read on and reached a clean end with {} of {} bytes", f.kind, f.at_call, o2.data.len(), refo.data.len()),
+                                vplan,
+                            ),
+                            Ok(o2) if o2.end.is_ok() => rec.count("probe:reader-resumed-after-the-error"),
+                            Ok(_) => {}
+                        }
                     }
                 }
             }
